@@ -584,3 +584,97 @@ pub fn module_string(e: &EnumSpec, o: &ModOpts) -> ModuleSrc {
     src.push("}");
     ModuleSrc { enum_name: e.name.clone(), src }
 }
+
+// ---------------------------------------------------------------------------------------------
+// iter family
+
+pub fn glue_iter(e: &EnumSpec, name: &str, inst: &str, src: &mut Src) {
+    let ty = format!("{}{}", name, inst);
+    src.push(&format!("impl vrt::iterfam::IGlue for {} {{", ty));
+    src.push("    type It = <Self as strum::IntoEnumIterator>::Iterator;");
+    src.push("    fn iter() -> Self::It { <Self as strum::IntoEnumIterator>::iter() }");
+    if e.derives("EnumCount") {
+        src.push("    fn count() -> Option<usize> { Some(<Self as strum::EnumCount>::COUNT) }");
+    }
+    if e.derives("VariantNames") {
+        src.push("    fn variant_names() -> Option<&'static [&'static str]> { Some(<Self as strum::VariantNames>::VARIANTS) }");
+    }
+    if e.derives("VariantArray") {
+        src.push("    fn variant_array() -> Option<Vec<usize>> { Some(<Self as strum::VariantArray>::VARIANTS.iter().map(|v| vrt::Glue::idx(v)).collect()) }");
+    }
+    src.push("}");
+}
+
+pub fn module_iter(e: &EnumSpec, o: &ModOpts) -> ModuleSrc {
+    let mut src = Src::default();
+    src.push(&format!("pub mod m_{} {{", e.name.to_lowercase()));
+    let name = e.name.clone();
+    let eo = enum_opts(e, &name);
+    src.push(&enum_def(e, &eo));
+    let g = generics(e, eo.t_bound, eo.t_inst);
+    src.push(&glue_base(e, &name, &g.inst));
+    glue_iter(e, &name, &g.inst, &mut src);
+    if o.property == "C05" {
+        // the iterator type is Send + Sync whatever the type parameter is
+        let g2 = generics(e, eo.t_bound, "vrt::NotSend");
+        src.push("fn assert_send_sync<X: Send + Sync>() {}");
+        src.tagged(
+            &format!("pub fn _static_send_sync() {{ assert_send_sync::<<{}{} as strum::IntoEnumIterator>::Iterator>(); }}", name, g2.inst),
+            "C05:iterator-send-sync",
+        );
+    }
+    src.push(&format!("pub fn run(ctx: &mut vrt::Ctx) {{ {}::<{}{}>(ctx) }}", o.run_fn, name, g.inst));
+    src.push("}");
+    ModuleSrc { enum_name: e.name.clone(), src }
+}
+
+// ---------------------------------------------------------------------------------------------
+// repr family
+
+pub fn module_repr(e: &EnumSpec, o: &ModOpts) -> ModuleSrc {
+    let mut src = Src::default();
+    src.push(&format!("pub mod m_{} {{", e.name.to_lowercase()));
+    let name = e.name.clone();
+    let eo = enum_opts(e, &name);
+    src.push(&enum_def(e, &eo));
+    let g = generics(e, eo.t_bound, eo.t_inst);
+    src.push(&glue_base(e, &name, &g.inst));
+    let r = e.repr_int.clone().unwrap_or_else(|| "usize".to_string());
+    let ty = format!("{}{}", name, g.inst);
+    src.push(&format!("impl vrt::reprfam::RGlue for {} {{", ty));
+    src.push(&format!("    fn from_repr(d: i128) -> Option<Option<Self>> {{ let x: {} = ::core::convert::TryFrom::try_from(d).ok()?; Some(Self::from_repr(x)) }}", r));
+    let fieldless = e.variants.iter().all(|v| v.kind == Kind::Unit);
+    if fieldless && !e.has_generics() && !e.variants.is_empty() {
+        src.push("    fn as_repr(&self) -> Option<i128> { Some(match self {");
+        for v in &e.variants {
+            src.push(&format!("        {n}::{v} => ({n}::{v} as {r}) as i128,", n = name, v = v.ident, r = r));
+        }
+        src.push("    }) }");
+    } else if e.repr_int.is_some() && !e.variants.is_empty() {
+        // documented way to read the discriminant of a primitive-repr enum with fields
+        src.push(&format!("    fn as_repr(&self) -> Option<i128> {{ Some(unsafe {{ *(self as *const Self as *const {}) }} as i128) }}", r));
+    }
+    if fieldless && !e.has_generics() {
+        src.push("    fn const_results() -> Vec<(i128, Option<usize>)> { let mut v = Vec::new();");
+        let ds = crate::model::discs(e);
+        let mut pts: Vec<i128> = ds.clone();
+        pts.push(ds.iter().max().copied().unwrap_or(0) + 1);
+        pts.sort();
+        pts.dedup();
+        let (lo, hi) = crate::model::repr_range(e.repr_int.as_deref());
+        for d in pts {
+            if d < lo || d > hi {
+                continue;
+            }
+            src.tagged(
+                &format!("        {{ const C: Option<{n}> = {n}::from_repr({d}); v.push(({d}i128, C.map(|x| vrt::Glue::idx(&x)))); }}", n = name, d = d),
+                "C06:const-from_repr",
+            );
+        }
+        src.push("        v }");
+    }
+    src.push("}");
+    src.push(&format!("pub fn run(ctx: &mut vrt::Ctx) {{ {}::<{}>(ctx) }}", o.run_fn, ty));
+    src.push("}");
+    ModuleSrc { enum_name: e.name.clone(), src }
+}
